@@ -2,6 +2,7 @@ import PyrollModel.Gen.C03
 import PyrollModel.Gen.C03Groove
 import PyrollProofs.GrooveWFConstruct
 import PyrollProofs.GrooveWFExample
+import PyrollProofs.GrooveWFSpline
 import PyrollProps.C04
 
 /-!
@@ -30,6 +31,8 @@ open GrooveWF Gen.C03
 
 set_option linter.unusedSimpArgs false
 set_option linter.unusedVariables false
+set_option linter.unusedTactic false        -- `spline_face_bounded`: only one alternative of `first` runs per source form
+set_option linter.unreachableTactic false
 
 namespace C03
 
@@ -324,7 +327,101 @@ example : (["false_round", "FALSE-ROUND groove", "oval 3 radii", "constricted__u
 example : normalise factory "false_round_" = "FalseRound_Groove" ∧ normalise factory "false_round__" = "FalseRound_Groove" ∧
     resolveClass factory classes "false_round_" = none := by decide
 
+/-! ## the shape checks of `SplineGroove.__init__`
+
+All statements are about the GENERATED face test `splineFace` — `np.isclose(y, 0)` or `np.abs(y) <= <tolerance term>`,
+whichever form the translator read from the source — and the generated list of checks. -/
+
 /-- the spline shape checks, as generated -/
 theorem spline_checks : splineChecks = [.ndim 2, .cols 2, .endsOnFace] := rfl
+
+/-- the generated face test says `|y| ≤ tolerance`, the tolerance being the translated term evaluated on the vertex
+    array as given -/
+theorem spline_face_spec (rows : List (List ℝ)) (y : ℝ) :
+    splineFace.onFace rows y = true ↔ |y| ≤ splineFace.tol rows := onFace_iff _ _ _
+
+/-- the generated face test depends on `|y|` only and is downward closed in it -/
+theorem spline_face_abs_only (rows : List (List ℝ)) (y y' : ℝ) :
+    (|y| = |y'| → splineFace.onFace rows y = splineFace.onFace rows y') ∧
+    (|y'| ≤ |y| → splineFace.onFace rows y = true → splineFace.onFace rows y' = true) :=
+  ⟨onFace_abs _ _, onFace_mono _ _⟩
+
+/-- the tolerance of the generated face test is non-negative and at most `max 1e-8 (1e-9·extent)` (the only theorem
+    that looks at the FORM of the test: numpy's absolute default, or `1e-9 ×` the larger column extent; any other
+    tolerance in the source does not build) -/
+theorem spline_face_bounded : FaceBounded splineFace := by
+  first
+    | exact faceBounded_isclose
+    | exact faceBounded_within_extent
+
+/-- an ordinate that IS 0 lies on the face line -/
+theorem spline_zero_on_face {rows : List (List ℝ)} (h : rows ≠ []) : splineFace.onFace rows 0 = true := by
+  rw [spline_face_spec, abs_zero]; exact (spline_face_bounded rows h).1
+
+/-- **what the shape checks accept** (full strength): exactly the two-dimensional arguments with at least one row, two
+    entries in every row and the first and the last ordinate within the tolerance of the generated face test -/
+theorem spline_accepts_iff (nd : Nat) (rows : List (List ℝ)) :
+    splineAccepts splineFace splineChecks nd rows = true ↔
+      nd = 2 ∧ rows ≠ [] ∧ (∀ r ∈ rows, r.length = 2) ∧
+        ∀ a ∈ rows.head?, ∀ b ∈ rows.getLast?,
+          |a.getD 1 1| ≤ splineFace.tol rows ∧ |b.getD 1 1| ≤ splineFace.tol rows :=
+  splineAccepts_iff splineFace nd rows
+
+/-- an accepted contour ends on the face line up to `max 1e-8 (1e-9·extent)`; a well-shaped contour whose end ordinates
+    are 0 is accepted, whatever lies in between -/
+theorem spline_ends_on_face (nd : Nat) (rows : List (List ℝ)) :
+    (splineAccepts splineFace splineChecks nd rows = true →
+      ∀ a ∈ rows.head?, ∀ b ∈ rows.getLast?,
+        |a.getD 1 1| ≤ max (1 / 10 ^ 8) (1 / 10 ^ 9 * extent rows) ∧
+        |b.getD 1 1| ≤ max (1 / 10 ^ 8) (1 / 10 ^ 9 * extent rows)) ∧
+    (nd = 2 → rows ≠ [] → (∀ r ∈ rows, r.length = 2) → (∀ a ∈ rows.head?, a.getD 1 1 = 0) →
+      (∀ b ∈ rows.getLast?, b.getD 1 1 = 0) → splineAccepts splineFace splineChecks nd rows = true) := by
+  constructor
+  · intro h a ha b hb
+    obtain ⟨_, hne, _, hends⟩ := (spline_accepts_iff nd rows).mp h
+    have hb2 := (spline_face_bounded rows hne).2
+    exact ⟨le_trans (hends a ha b hb).1 hb2, le_trans (hends a ha b hb).2 hb2⟩
+  · intro h2 hne hlen ha hb
+    refine (spline_accepts_iff nd rows).mpr ⟨h2, hne, hlen, fun a ha' b hb' => ?_⟩
+    rw [ha a ha', hb b hb', abs_zero]
+    exact ⟨(spline_face_bounded rows hne).1, (spline_face_bounded rows hne).1⟩
+
+/-- a contour that starts or ends farther off the face line than `max 1e-8 (1e-9·extent)` is rejected -/
+theorem spline_rejects_off_face (nd : Nat) (rows : List (List ℝ))
+    (h : (∃ a ∈ rows.head?, max (1 / 10 ^ 8) (1 / 10 ^ 9 * extent rows) < |a.getD 1 1|) ∨
+      (∃ b ∈ rows.getLast?, max (1 / 10 ^ 8) (1 / 10 ^ 9 * extent rows) < |b.getD 1 1|)) :
+    splineAccepts splineFace splineChecks nd rows = false := by
+  rw [Bool.eq_false_iff]
+  intro hacc
+  have hends := (spline_ends_on_face nd rows).1 hacc
+  obtain ⟨_, hne, _, _⟩ := (spline_accepts_iff nd rows).mp hacc
+  obtain ⟨a, ha⟩ : ∃ a, rows.head? = some a := by
+    rcases rows with _ | ⟨r, t⟩
+    · exact absurd rfl hne
+    · exact ⟨r, rfl⟩
+  obtain ⟨b, hb⟩ : ∃ b, rows.getLast? = some b := ⟨_, List.getLast?_eq_some_getLast hne⟩
+  rcases h with ⟨a', ha', hlt⟩ | ⟨b', hb', hlt⟩
+  · have := (hends a' ha' b hb).1; linarith
+  · have := (hends a ha b' hb').2; linarith
+
+/-- Non-vacuity: a trapezoid given by four vertices is accepted (`nd = 2`, two columns, end ordinates 0) … -/
+example : splineAccepts splineFace splineChecks 2 [[-2, 0], [-1, 1], [1, 1], [2, (0 : ℝ)]] = true :=
+  (spline_ends_on_face 2 _).2 rfl (by simp) (by simp) (by simp) (by simp)
+
+/-- … a contour starting at ordinate 1/2 (extent ≤ 4) is rejected, and so is a flat list of numbers -/
+example : splineAccepts splineFace splineChecks 2 [[-2, 1 / 2], [0, 1], [2, (0 : ℝ)]] = false := by
+  apply spline_rejects_off_face
+  left
+  refine ⟨_, rfl, ?_⟩
+  have h := extent_le (rows := [[-2, 1 / 2], [0, 1], [2, (0 : ℝ)]]) (by simp) 2 (by
+    intro r hr
+    simp only [List.mem_cons, List.not_mem_nil, or_false] at hr
+    rcases hr with rfl | rfl | rfl <;> norm_num [abs_le])
+  have : max ((1 : ℝ) / 10 ^ 8) (1 / 10 ^ 9 * extent [[-2, 1 / 2], [0, 1], [2, (0 : ℝ)]]) < 1 / 2 := by
+    apply max_lt (by norm_num); nlinarith
+  simpa using this
+
+example : splineAccepts splineFace splineChecks 1 [[0, 1, (2 : ℝ)]] = false := by
+  rw [Bool.eq_false_iff, Ne, spline_accepts_iff]; simp
 
 end C03
